@@ -21,7 +21,10 @@ Theorem C15_implicit_numbering : forall vs,
   numbering_ok vs (numbers vs) /\ (forall ns, numbering_ok vs ns -> ns = numbers vs).
 Proof. intros vs. split; [apply numbering_ok_numbers|apply numbering_ok_unique]. Qed.
 
-(* For every enum on a field of width 0 <= w <= 126 (beyond that the generator panics, see notes) whose
+(* HISTORICAL (about [enum_check], the model of the pass BEFORE the repair of D12 (3c1cc51); kept because the
+   C07 development is stated over that model and because EnumProofs.repaired_ok_implies_ok carries every
+   consequence of its acceptance over to the pass as it is now).
+   For every enum on a field of width 0 <= w <= 126 (beyond that the generator panics, see notes) whose
    variant list is outside the D12 class (no two DIFFERENTLY NAMED variants with the same cfg and the same
    number): the pass rejects it iff the property's disjunction holds (no variants, or two variants under the
    same cfg with the same number, or a number above 2^w - 1, or two defaults, or two catch-alls, or
@@ -31,13 +34,14 @@ Theorem C15_reject_iff_partial : forall obj fld w e use_try,
   ((exists err, enum_check obj fld w e use_try = VErr err) <-> spec_reject w (e_variants e) use_try).
 Proof. exact reject_iff_partial. Qed.
 
-(* Without the side condition the pass is still sound: it never rejects what the property accepts. *)
+(* HISTORICAL (same model). Without the side condition that pass was still sound: it never rejected what the
+   property's older reading (numbers only tested from above) accepts. *)
 Theorem C15_reject_sound : forall obj fld w e use_try,
   0 <= w < 127 ->
   (exists err, enum_check obj fld w e use_try = VErr err) -> spec_reject w (e_variants e) use_try.
 Proof. exact reject_sound. Qed.
 
-(* The full statement is FALSE of the code (defect D12): {A = 1, B = 1} with `try` on a 2-bit field is
+(* HISTORICAL: the full statement was FALSE of the code before 3c1cc51 (defect D12): {A = 1, B = 1} with `try` on a 2-bit field is
    accepted although two variants (no cfg) share the number 1; itertools' duplicates() compares
    (value, name+cfg) pairs, so only a repeated NAME can ever be reported. *)
 Definition d12_witness : enum_def :=
@@ -57,11 +61,35 @@ Proof.
   repeat split; auto.
 Qed.
 
-(* With the repair candidate (duplicates_by (value, cfg)) the pass decides exactly the property's rule. *)
+(* HISTORICAL (about [enum_check_fixed], the pass after the repair of D12 and before the repairs of D16 / D17):
+   with duplicates_by (value, cfg) the pass decided exactly the disjunction above, in which "does not fit the
+   field's width" only looks upwards.  The statement for the pass as it is now is C15_reject_iff_after_repairs. *)
 Theorem C15_reject_iff_after_repair : forall obj fld w e use_try,
   0 <= w < 127 ->
   ((exists err, enum_check_fixed obj fld w e use_try = VErr err) <-> spec_reject w (e_variants e) use_try).
 Proof. exact reject_iff_fixed. Qed.
+
+(* THE PASS AS IT IS NOW (D12 repaired by 3c1cc51, D16 by 717250d, D17 by e1d126c).
+   For every enum on a field of base type [base] and width 0 <= w <= 126: the pass rejects it iff the property's
+   disjunction holds — no variants, or two variants under the same cfg with the same number, or a number that
+   does not fit the field's width, or two defaults, or two catch-alls, or non-`try` and not total — where "a
+   variant's number does not fit the field's width" is: above 2^w - 1 [spec_too_high, inside spec_reject], or
+   negative on a field that is not `int`, or outside the signed repr i{c} of an `int` field, c = the least power
+   of two >= max(8, w) [spec_unrepresentable]. *)
+Theorem C15_reject_iff_after_repairs : forall base obj fld w e use_try,
+  0 <= w < 127 ->
+  ((exists err, enum_check_repaired base obj fld w e use_try = VErr err) <->
+   spec_reject_repaired base w (e_variants e) use_try).
+Proof. exact reject_iff_repaired. Qed.
+
+(* Whatever the pass as it is now accepts, the two older models accept as well — so every theorem about an
+   acceptance by [enum_check] / [enum_check_fixed] (C07's included) applies to it — and every number of an accepted
+   enum is representable in the repr the emitter gives the enum. *)
+Theorem C15_repaired_accepts_less : forall base obj fld w e use_try,
+  enum_check_repaired base obj fld w e use_try = VOk ->
+  enum_check_fixed obj fld w e use_try = VOk /\ enum_check obj fld w e use_try = VOk /\
+  ~ spec_unrepresentable base w (e_variants e) /\ ~ d12_class (e_variants e).
+Proof. exact repaired_accepts_less. Qed.
 
 (* The generation style is Infallible{w} exactly when the enum has a default, or a catch-all, or a variant
    for every bit pattern 0..2^w-1; it never records another width; otherwise it is Fallible. *)
@@ -71,7 +99,7 @@ Theorem C15_infallible_iff_total : forall w vs, 0 <= w ->
   (enum_style w vs = GFallible <-> ~ spec_total w vs).
 Proof. exact infallible_iff_total. Qed.
 
-(* Device level: the pass accepts a device iff it accepts every inline enum of every field set of every
+(* Device level (HISTORICAL model; the same statements for the pass as it is now follow): the pass accepts a device iff it accepts every inline enum of every field set of every
    object (pre-order, any nesting depth), and a rejection is the rejection of one of them. *)
 Theorem C15_device_accept_iff : forall d,
   enum_values_check d = VOk <->
@@ -83,6 +111,18 @@ Theorem C15_device_reject_site : forall d e,
   exists s, In s (enum_sites d) /\
             enum_check (s_obj s) (f_name (s_field s)) (s_width s) (s_enum s) (s_try s) = VErr e.
 Proof. exact device_reject_site. Qed.
+
+Theorem C15_device_accept_iff_after_repairs : forall d,
+  enum_values_check_repaired d = VOk <->
+  Forall (fun s => enum_check_repaired (f_base (s_field s)) (s_obj s) (f_name (s_field s)) (s_width s) (s_enum s) (s_try s) = VOk)
+         (enum_sites d).
+Proof. exact device_accept_iff_repaired. Qed.
+
+Theorem C15_device_reject_site_after_repairs : forall d e,
+  enum_values_check_repaired d = VErr e ->
+  exists s, In s (enum_sites d) /\
+            enum_check_repaired (f_base (s_field s)) (s_obj s) (f_name (s_field s)) (s_width s) (s_enum s) (s_try s) = VErr e.
+Proof. exact device_reject_site_repaired. Qed.
 
 (* ---------------- non-vacuity ---------------- *)
 
@@ -97,8 +137,8 @@ Example C15_numbering_examples :
   map ev_num (emit_variants [var "A" EVCatchAll; var "B" EVUnspec; var "C" (EVSpec (-3)); var "D" EVUnspec]) = [0; 1; -3; -2].
 Proof. vm_compute. repeat split. Qed.
 
-(* every rejection reason is reachable and reported in the order of the code; accepted instances exist for
-   try and non-try; a negative number passes the range test (it is only tested from above) *)
+(* HISTORICAL model: every rejection reason is reachable and reported in the order of the code; accepted instances
+   exist for try and non-try; a negative number passed the range test (it was only tested from above: D16) *)
 Example C15_check_examples :
   let k v := match v with VErr e => e_kind e | VOk => "ok" | VPanic => "panic" end in
   k (enum_check "R" "f" 2 (en []) false) = "enum_empty" /\
@@ -133,6 +173,67 @@ Proof.
   - apply d12_class_reflect. reflexivity.
 Qed.
 
+(* the pass as it is now: the hypotheses of C15_reject_iff_after_repairs are met by accepted and by rejected
+   instances; `A = -1` on a uint (and on a bool) field and `B = 255` on an 8-bit int field are rejected with the
+   new kinds, naming the first offending variant and its number; `A = -128, B = 127` on an 8-bit int field and
+   `A = -3` on a 4-bit int field are accepted; the boundaries are exact (-129 / 128 on i8; -32769 / 32768 on a
+   12-bit and on a 16-bit int field, repr i16); an implicit successor is checked like an explicit number
+   (127 then implicit = 128); the new tests come after "too high" and before "more than one default"; the D12
+   witness is rejected; the carrier width is the least power of two >= max(8, w). *)
+Example C15_after_repairs_examples :
+  let k v := match v with VErr e => show_error e | VOk => "ok" | VPanic => "panic" end in
+  k (enum_check_repaired BUint "R" "f" 8 (en [var "A" (EVSpec (-1)); var "B" EVDefault]) false)
+    = "enum_value_too_low:A|E|R|f|-1" /\
+  k (enum_check_repaired BBool "R" "f" 1 (en [var "A" EVUnspec; var "B" (EVSpec (-1))]) true)
+    = "enum_value_too_low:B|E|R|f|-1" /\
+  k (enum_check_repaired BInt "R" "f" 8 (en [var "A" EVUnspec; var "B" (EVSpec 255)]) true)
+    = "enum_value_repr:B|E|R|f|255" /\
+  k (enum_check_repaired BInt "R" "f" 8 (en [var "A" (EVSpec (-128)); var "B" (EVSpec 127)]) true) = "ok" /\
+  k (enum_check_repaired BInt "R" "f" 4 (en [var "A" (EVSpec (-3))]) true) = "ok" /\
+  k (enum_check_repaired BInt "R" "f" 8 (en [var "A" (EVSpec (-129)); var "B" EVDefault]) false)
+    = "enum_value_repr:A|E|R|f|-129" /\
+  k (enum_check_repaired BInt "R" "f" 8 (en [var "A" (EVSpec 127); var "B" EVUnspec; var "C" (EVSpec (-129))]) true)
+    = "enum_value_repr:B|E|R|f|128" /\
+  k (enum_check_repaired BInt "R" "f" 4 (en [var "A" (EVSpec (-128)); var "B" EVCatchAll]) false) = "ok" /\
+  k (enum_check_repaired BInt "R" "f" 4 (en [var "A" (EVSpec (-129)); var "B" EVCatchAll]) false)
+    = "enum_value_repr:A|E|R|f|-129" /\
+  k (enum_check_repaired BInt "R" "f" 12 (en [var "A" (EVSpec (-32768))]) true) = "ok" /\
+  k (enum_check_repaired BInt "R" "f" 12 (en [var "A" (EVSpec (-32769))]) true) = "enum_value_repr:A|E|R|f|-32769" /\
+  k (enum_check_repaired BInt "R" "f" 16 (en [var "A" (EVSpec 32767); var "B" (EVSpec (-32768))]) true) = "ok" /\
+  k (enum_check_repaired BInt "R" "f" 16 (en [var "A" (EVSpec 32767); var "B" EVUnspec]) true)
+    = "enum_value_repr:B|E|R|f|32768" /\
+  (* order: duplicates, too high, then the new tests, then the multiplicities *)
+  k (enum_check_repaired BUint "R" "f" 2 (en [var "A" (EVSpec (-1)); var "B" (EVSpec 4)]) true)
+    = "enum_value_too_high:B|E|R|f|4|3" /\
+  k (enum_check_repaired BUint "R" "f" 2 (en [var "A" (EVSpec (-1)); var "B" EVDefault; var "C" EVDefault]) true)
+    = "enum_value_too_low:A|E|R|f|-1" /\
+  k (enum_check_repaired BInt "R" "f" 8 (en [var "A" (EVSpec 200); var "B" EVCatchAll; var "C" EVCatchAll]) true)
+    = "enum_value_repr:A|E|R|f|200" /\
+  k (enum_check_repaired BUint "R" "f" 2 d12_witness true) = "enum_dup_value:E|R|f" /\
+  (* the older models accepted the D16 / D17 witnesses *)
+  enum_check_fixed "R" "f" 8 (en [var "A" (EVSpec (-1)); var "B" EVDefault]) false = VOk /\
+  enum_check_fixed "R" "f" 8 (en [var "A" EVUnspec; var "B" (EVSpec 255)]) true = VOk /\
+  map carrier_bits [1; 4; 8; 9; 12; 16; 17; 32; 33; 64; 65; 126] = [8; 8; 8; 16; 16; 16; 32; 32; 64; 64; 128; 128].
+Proof. vm_compute. repeat split. Qed.
+
+Example C15_after_repairs_nonvacuous :
+  (* rejected by the new clause only (the older rule accepts it), on both kinds of field *)
+  spec_reject_repaired BUint 8 [var "A" (EVSpec (-1)); var "B" EVDefault] false /\
+  ~ spec_reject 8 [var "A" (EVSpec (-1)); var "B" EVDefault] false /\
+  spec_reject_repaired BInt 8 [var "A" EVUnspec; var "B" (EVSpec 255)] true /\
+  ~ spec_reject 8 [var "A" EVUnspec; var "B" (EVSpec 255)] true /\
+  (* accepted *)
+  ~ spec_reject_repaired BInt 8 [var "A" (EVSpec (-128)); var "B" (EVSpec 127)] true /\
+  ~ spec_reject_repaired BInt 4 [var "A" (EVSpec (-3))] true /\
+  ~ spec_reject_repaired BUint 3 [var "A" EVUnspec; var "B" EVDefault] false.
+Proof.
+  repeat split;
+    try (apply spec_reject_repaired_reflect; [discriminate|reflexivity]);
+    intros H;
+    try (apply spec_reject_repaired_reflect in H; [vm_compute in H|]; discriminate);
+    try (apply spec_reject_reflect in H; [vm_compute in H|]; discriminate).
+Qed.
+
 (* Infallible by fallback, Infallible by coverage (4 of 4 patterns), Fallible (3 of 4) *)
 Example C15_style_examples :
   enum_style 2 [var "A" EVUnspec; var "B" EVCatchAll] = GInfallible 2 /\
@@ -147,17 +248,24 @@ Print Assumptions C15_reject_iff_partial.
 Print Assumptions C15_reject_sound.
 Print Assumptions C15_duplicate_numbers_refuted.
 Print Assumptions C15_reject_iff_after_repair.
+Print Assumptions C15_reject_iff_after_repairs.
+Print Assumptions C15_repaired_accepts_less.
+Print Assumptions C15_device_accept_iff_after_repairs.
+Print Assumptions C15_device_reject_site_after_repairs.
 Print Assumptions C15_infallible_iff_total.
 Print Assumptions C15_device_accept_iff.
 Print Assumptions C15_device_reject_site.
 
-(* ---- whole pipeline: every inline enum of a definition the whole generator accepts passes the analysis, and
-   (field width below 127 bits) is outside the property's reject class ---- *)
+(* ---- whole pipeline: every inline enum of a definition the whole generator accepts passes the analysis AS IT IS
+   NOW (hence also the older models, C15_repaired_accepts_less), and (field width below 127 bits) is outside the
+   property's reject class, the D16 / D17 clauses included ---- *)
 From DD Require Pipeline PipelineProofs Names.
 Theorem C15_whole_pipeline_accept : forall fuel dev_name d0,
   Pipeline.pipeline_result fuel dev_name d0 = "ok"%string ->
-  Forall (fun s => enum_check_fixed (s_obj s) (f_name (s_field s)) (s_width s) (s_enum s) (s_try s) = VOk
-                   /\ (0 <= s_width s < 127 -> ~ spec_reject (s_width s) (e_variants (s_enum s)) (s_try s)))
+  Forall (fun s => enum_check_repaired (f_base (s_field s)) (s_obj s) (f_name (s_field s)) (s_width s) (s_enum s) (s_try s) = VOk
+                   /\ enum_check_fixed (s_obj s) (f_name (s_field s)) (s_width s) (s_enum s) (s_try s) = VOk
+                   /\ (0 <= s_width s < 127 ->
+                       ~ spec_reject_repaired (f_base (s_field s)) (s_width s) (e_variants (s_enum s)) (s_try s)))
          (enum_sites (Names.names_normalized d0)).
 Proof.
   intros fuel dev_name d0 H. apply PipelineProofs.pipeline_result_ok_iff in H.
